@@ -158,8 +158,31 @@ pub fn session(rng: &mut Rng) -> (Vec<String>, Vec<String>) {
         let n2 = if rng.chance(1, 2) { n1.clone() } else { pick_name(rng) };
         f.push(format!("(define s{u}a {})", mkstr(&n1), u = u));
         f.push(format!("(define s{u}b {})", mkstr(&n2), u = u));
-        let (r1, t1) = route(rng, &n1, &format!("s{}a", u), &mut tags);
-        let (r2, t2) = route(rng, &n2, &format!("s{}b", u), &mut tags);
+        let (mut r1, t1) = route(rng, &n1, &format!("s{}a", u), &mut tags);
+        let (mut r2, t2) = route(rng, &n2, &format!("s{}b", u), &mut tags);
+        // a symbol stays the same object when it travels: through a continuation invoked in operand position,
+        // through a procedure call, through storage in a vector
+        for r in [&mut r1, &mut r2] {
+            match rng.below(12) {
+                0 => {
+                    tags.push("via:continuation-operand".into());
+                    *r = format!("(call/cc (lambda (k) (if (k {}) 1 2)))", r);
+                }
+                1 => {
+                    tags.push("via:continuation-tail".into());
+                    *r = format!("(call/cc (lambda (k) (k {})))", r);
+                }
+                2 => {
+                    tags.push("via:apply".into());
+                    *r = format!("(apply (lambda (a . r) (car r)) 0 (list {}))", r);
+                }
+                3 => {
+                    tags.push("via:vector".into());
+                    *r = format!("(vector-ref (vector 0 {}) 1)", r);
+                }
+                _ => {}
+            }
+        }
         tags.push(format!("route:{}x{}", t1, t2));
         let within_one_form = rng.chance(1, 3);
         let drop_first = rng.chance(1, 3);
